@@ -18,8 +18,8 @@ from sim import bootstrap
 
 VERIF = bootstrap.VERIF
 KNOWN_FILE = os.path.join(VERIF, "known_findings.json")
-REPLAY_DIR = os.path.join(VERIF, "replays")
-EVIDENCE_DIR = os.path.join(VERIF, "evidence")
+REPLAY_DIR = os.environ.get("VERIF_REPLAY_DIR") or os.path.join(VERIF, "replays")
+EVIDENCE_DIR = os.environ.get("VERIF_EVIDENCE_DIR") or os.path.join(VERIF, "evidence")
 
 
 class Violation(Exception):
@@ -114,11 +114,13 @@ def execute(profile, cfg, ops=None, rng=None, tier="quick"):
     try:
         try:
             if ops is None:
-                while True:
+                while not getattr(ctx, "done", False):
                     op = ctx.choose(rng)
                     if op is None:
                         break
                     executed.append(op)
+                    if len(executed) > 20000:
+                        raise HarnessError("generator of %s does not terminate" % profile.id)
                     ctx.step(op)
             else:
                 for op in ops:
@@ -227,7 +229,7 @@ def work_block(args):
     profile = profiles.get(prop)
     out = {"runs": 0, "stats": collections.Counter(), "cells": set(), "hashes": set(),
            "violations": [], "sim_time": 0.0, "nops": 0, "skipped": 0, "samples": [],
-           "nontrivial_runs": 0, "digest": hashlib.sha256(), "errors": []}
+           "nontrivial_runs": 0, "digests": [], "errors": []}
     for idx in range(start, end):
         try:
             r = generate(profile, prop, verif_seed, idx, tier)
@@ -243,7 +245,7 @@ def work_block(args):
         out["sim_time"] += r.sim_time
         out["nops"] += r.nops
         out["skipped"] += r.skipped
-        out["digest"].update(("%d:%s\n" % (idx, r.digest)).encode())
+        out["digests"].append((idx, r.digest))
         if len(out["samples"]) < 2 and r.nontrivial:
             out["samples"].append({"run_index": idx, "config": profile.config_diff(r.cfg),
                                    "ops": r.ops[:40]})
@@ -253,7 +255,6 @@ def work_block(args):
                                       "cfg": r.cfg, "ops": r.ops})
         elif r.violation is not None:
             out["stats"]["violations_not_kept"] += 1
-    out["digest"] = out["digest"].hexdigest()
     faulthandler.cancel_dump_traceback_later()
     return out
 
@@ -262,7 +263,7 @@ def run_batch(prop, tier, verif_seed, nruns, jobs, block=None):
     from concurrent.futures import ProcessPoolExecutor
     import multiprocessing
     if block is None:
-        block = max(10, min(500, nruns // (jobs * 4) or 1))
+        block = max(10, min(500, nruns // (jobs * 8) or 1))
     tasks = []
     s = 0
     while s < nruns:
@@ -297,7 +298,8 @@ def run_batch(prop, tier, verif_seed, nruns, jobs, block=None):
         agg["errors"].extend(r["errors"])
         if len(agg["samples"]) < 3:
             agg["samples"].extend(r["samples"][:3 - len(agg["samples"])])
-        dg.update(r["digest"].encode())
+        for idx, d in r["digests"]:
+            dg.update(("%d:%s\n" % (idx, d)).encode())
     agg["digest"] = dg.hexdigest()
     return agg
 
@@ -412,6 +414,17 @@ def check(prop, tier, verif_seed, jobs, nruns=None, quiet=False):
     for sig, vs in new[:6]:
         v = min(vs, key=lambda x: len(x["ops"]))
         cfg, ops = v["cfg"], v["ops"]
+        d = v.get("detail")
+        if isinstance(d, dict) and "plain_ops" in d:
+            # the violation was found inside a composite op (sweep member): continue with the
+            # equivalent plain run if it reproduces
+            try:
+                r0 = execute(profile, d["plain_cfg"], d["plain_ops"], None, tier)
+                if r0.violation is not None and r0.violation[0] == sig:
+                    cfg, ops = d["plain_cfg"], d["plain_ops"]
+                    v = dict(v, cfg=cfg, ops=ops)
+            except Exception:
+                pass
         try:
             cfg, ops, nexec = shrink(profile, cfg, ops, sig, tier,
                                      deadline_s=max(5, min(40, t_shrink_end - time.time())))
